@@ -694,8 +694,24 @@ inline Pos gen_start(Tape& t, Report* rep)
 inline int pick_move(Tape& t, const Pos& p, const std::vector<ref::Move>& ms, const ref::Move* lastOwn)
 {
     if (ms.empty()) return -1;
-    int mode = int(t.choose(8));
+    int mode = int(t.choose(9));
     std::vector<int> cand;
+    if (mode == 8)
+    {
+        // traffic on the kings' home squares by other pieces: a rook or queen arriving on e1/e8 or leaving it along the
+        // back rank (moves whose text looks like castling, e1g1 / e1c1 / e8g8 / e8c8, without being castling)
+        for (size_t i = 0; i < ms.size(); ++i)
+        {
+            char l = ref::lower(p.b[ms[i].from]);
+            bool home = ms[i].from == 4 || ms[i].from == 60, tohome = ms[i].to == 4 || ms[i].to == 60;
+            if ((home && l != 'k' && l != 'p') || (tohome && (l == 'r' || l == 'q'))) cand.push_back(int(i));
+        }
+        // prefer the castling-like destinations when leaving the home square
+        std::vector<int> like;
+        for (int i : cand)
+            if ((ms[i].from == 4 || ms[i].from == 60) && (FL(ms[i].to) == 6 || FL(ms[i].to) == 2) && RK(ms[i].to) == RK(ms[i].from)) like.push_back(i);
+        if (!like.empty() && t.flag()) cand = like;
+    }
     if (mode == 4)
     {
         for (size_t i = 0; i < ms.size(); ++i)
@@ -893,4 +909,57 @@ inline Root gen_game(Tape& t, Report* rep, int maxPlies, const Pos* forcedStart 
     r.cur = g.cur;
     return r;
 }
+// a long legal game (shuffles with periodic irreversible moves keep it legal)
+inline Root long_game(Tape& t, Report* rep, int lo, int hi)
+{
+    (void)rep;
+    ref::Pos s = ref::startpos();
+    Root best;
+    int target = lo + int(t.choose(uint32_t(hi - lo + 1)));
+    if (lo <= 780 && hi >= 800 && t.chance(1, 3)) target = 780 + int(t.choose(21));  // around the history buffer's size
+    // gen_game draws its own length in [0, max]; force a long one by chaining segments
+    ref::Game g(s);
+    std::vector<ref::Move> ms;
+    int sinceIrrev = 0;
+    while (int(g.moves.size()) < target)
+    {
+        ref::legal_moves(g.cur, ms);
+        if (ms.empty()) break;
+        // prefer quiet non-pawn moves; every ~60 plies play a pawn move or capture to reset the clock
+        std::vector<int> quiet, irrev;
+        for (size_t k = 0; k < ms.size(); ++k)
+        {
+            bool irr = ref::lower(g.cur.b[ms[k].from]) == 'p' || ref::is_capture(g.cur, ms[k]);
+            (irr ? irrev : quiet).push_back(int(k));
+        }
+        int idx;
+        bool wantIrrev = sinceIrrev > 60 + int(t.choose(60));
+        if ((wantIrrev && !irrev.empty()) || quiet.empty()) idx = irrev.empty() ? int(t.choose(uint32_t(ms.size()))) : irrev[t.choose(uint32_t(irrev.size()))];
+        else idx = quiet[t.choose(uint32_t(quiet.size()))];
+        // keep the history legal: clock <= 150, no position more than 5 times (check only the recent window)
+        bool ok = false;
+        for (int tries = 0; tries < 8 && !ok; ++tries)
+        {
+            ref::Pos n = ref::make(g.cur, ms[idx]);
+            if (n.half <= 150)
+            {
+                std::string k = ref::key4(n);
+                int occ = 1;
+                for (int i = int(g.keys.size()) - 1; i >= 0 && i >= int(g.keys.size()) - 1 - n.half; --i) occ += g.keys[i] == k;
+                if (occ <= 4) ok = true;
+            }
+            if (!ok) idx = int(t.choose(uint32_t(ms.size())));
+        }
+        if (!ok) break;
+        bool irr = ref::lower(g.cur.b[ms[idx].from]) == 'p' || ref::is_capture(g.cur, ms[idx]);
+        sinceIrrev = irr ? 0 : sinceIrrev + 1;
+        g.play(ms[idx]);
+    }
+    best.start = s;
+    best.moves = g.moves;
+    best.cur = g.cur;
+    best.kind = "long_game";
+    return best;
+}
+
 }  // namespace gen
